@@ -45,6 +45,7 @@ type Harness struct {
 	Bounds   string             `json:"bounds"`
 	Frozen   bool               `json:"frozen_inputs"`
 	ExpectReach []string        `json:"expect_reach"`
+	SymbolicText bool           `json:"symbolic_text"`
 }
 
 type Index struct {
@@ -266,7 +267,7 @@ func runHarness(ix *Index, h *Harness, tier string, solverOverride string) *RunR
 
 	e := &Engine{prog: prog, sv: NewSolver(solver, tc.QueryMs), globals: map[*ssa.Global]ObjID{}, Unsupp: map[string]int{}, MaxIter: tc.Unwind,
 		Entered: map[string]bool{}, Reached: map[string]*Vector{}, ReachObs: map[string][]string{}, maxPaths: tc.Paths, params: tc.Params, pins: h.Pins,
-		harnessID: h.ID, entryName: h.Entry, target: target, seenViol: map[string]bool{}, initPkgs: map[string]bool{}, frozenInputs: h.Frozen}
+		harnessID: h.ID, entryName: h.Entry, target: target, seenViol: map[string]bool{}, initPkgs: map[string]bool{}, frozenInputs: h.Frozen, symbolicText: h.SymbolicText}
 	e.known = loadKnown(h.ID)
 	st := newState()
 	e.tolerant = true
